@@ -306,10 +306,14 @@ def analyse(obs: Obs, prog):
     okb_, derb_ = False, show(bwd)[:200]
     if is_t(bwd, "ctor") and bwd[1] == "Update" and len(bwd[2]) == 1 and is_call(bwd[2][0], "switch") and len(bwd[2][0][2]) == 2 and bwd[2][0][2][0] == old_idx:
         lst_ = bwd[2][0][2][1]
-        apps = [e_ for e_ in r.env.get("__effects__", []) if is_mcall(e_, "append") and e_[1][1] == lst_ and len(e_[2]) == 1]
-        if len(apps) == 1 and is_t(apps[0][2][0], "bin") and apps[0][2][0][1] == "|":
-            A_, B_ = apps[0][2][0][2], apps[0][2][0][3]
-            derb_ = f"per branch: {show(apps[0][2][0])[:260]}"
+        # the per-branch list: a comprehension / append-filled list over the branches (one entry per branch, in branch order)
+        item_ = lst_[2] if is_t(lst_, "fam") else None
+        if item_ is None:
+            apps = [e_ for e_ in r.env.get("__effects__", []) if is_mcall(e_, "append") and e_[1][1] == lst_ and len(e_[2]) == 1]
+            item_ = apps[0][2][0] if len(apps) == 1 else None
+        if is_t(item_, "bin") and item_[1] == "|":
+            A_, B_ = item_[2], item_[3]
+            derb_ = f"per branch: {show(item_)[:260]}"
             _mask_call = lambda t: is_t(t, "call") and (is_mcall(t, "mask") or (is_t(t[1], "phi") and all(is_t(x, "attr") and x[2] == "mask" for x in (t[1][2], t[1][3]))))
             if _mask_call(A_) and is_mcall(B_, "mask") and len(A_[2]) == 1 and len(B_[2]) == 1:
                 fa, fb = A_[2][0], B_[2][0]
